@@ -62,7 +62,7 @@ func runC03(ctx *core.Ctx, out *core.Out) {
 	if r.Chance(3, 4) {
 		max = 3000
 	}
-	st := genStream(r, StreamOpts{FromClient: fromClient, Comp: comp, MaxMsgs: 5, MaxSize: max, Controls: true, Close: r.Chance(2, 3), UseZlib: true})
+	st := genStream(r, StreamOpts{FromClient: fromClient, Comp: comp, MaxMsgs: 5, MaxSize: max, Controls: true, Close: r.Chance(2, 3), UseZlib: true, JSON: true})
 	// a JSON message at the end of some streams (before the close)
 	out.Count("streams", 1)
 	out.Count("encoder_rejected", int64(st.Rejected))
@@ -190,7 +190,22 @@ func execRead(out *core.Out, id string, st *Stream, exp []Ev, ex rdExec, r *gen.
 		if mode == 2 || mode == 4 {
 			mode = r.Intn(2)
 		}
-		ok := rd.ReadOne(mode, r)
+		var ok bool
+		if ex.Mode == 2 && i < len(exp) && exp[i].JSON {
+			var v, want interface{}
+			if err := c.ReadJSON(&v); err != nil {
+				return fail("readjson", fmt.Sprintf("ReadJSON of message %d failed: %v", i, err))
+			}
+			json.Unmarshal(exp[i].Data, &want)
+			if !reflect.DeepEqual(v, want) {
+				return fail("readjson-mismatch", fmt.Sprintf("ReadJSON of message %d decoded a different value", i))
+			}
+			rd.Got = append(rd.Got, Got{Type: 1, Data: exp[i].Data})
+			out.Count("readjson_messages", 1)
+			ok = true
+		} else {
+			ok = rd.ReadOne(mode, r)
+		}
 		if stale != nil {
 			var b [16]byte
 			if n, _ := stale.Read(b[:]); n != 0 {
